@@ -85,6 +85,7 @@ class Ctx:
         self.funcs = []       # sidecar entries
         self.cost = {}        # fn name -> estimated dynamic statements
         self.signals = False
+        self.same_line_callee_lines = []   # lines that call a closure defined on the same line
 
     def emit(self, s):
         self.lines.append(s)
@@ -151,6 +152,8 @@ def gen_body(cx, name, depth, callees, indent, max_stmts, stmt_lines, in_loop=1)
                              'x = one(onerec({n}, x));'])
             ln = cx.emit(f'{pad}tick!(); ' + st.format(n=rng.randint(1, 4), c=_const(rng)))
             stmt_lines.append(ln)
+            if '(|v' in st:
+                cx.same_line_callee_lines.append(ln)
             cost += 8
         elif k < 0.885 and cx.signals:
             ln = cx.emit(f'{pad}tick!(); sig_me(x);')
@@ -294,7 +297,8 @@ def gen(seed, budget=1500, nfuncs=None, rec_depth=None, signals=False):
     src = '\n'.join(cx.lines) + '\n'
     side = {'family': 'flow', 'seed': seed, 'funcs': cx.funcs, 'rec_depth': rd, 'mutual_depth': md,
             'est_cost': total + cx.cost['rec'] + cx.cost['ping'],
-            'prelude_funcs': ['mix', 'gen_id', 'apply', 'area', 'one', 'onerec'], 'signals': signals}
+            'prelude_funcs': ['mix', 'gen_id', 'apply', 'area', 'one', 'onerec'], 'signals': signals,
+            'same_line_callee_lines': cx.same_line_callee_lines}
     return src, side
 
 
